@@ -43,6 +43,22 @@ def write_zip(path, members, s2b):
                 zi.external_attr = (stat.S_IFREG | m.get("mode", 0o644)) << 16
                 data = s2b(m.get("data", ""))
             zi.compress_type = zipfile.ZIP_DEFLATED if m.get("deflate") else zipfile.ZIP_STORED
+            # per-member fields as other tools write them (none of them is part of the tree)
+            if m.get("method") and kind == "file":
+                zi.compress_type = {"stored": zipfile.ZIP_STORED, "deflate": zipfile.ZIP_DEFLATED,
+                                    "bzip2": zipfile.ZIP_BZIP2, "lzma": zipfile.ZIP_LZMA}[m["method"]]
+            if "attr" in m and kind == "file":
+                zi.external_attr = m["attr"]
+            if "create_system" in m:
+                zi.create_system = m["create_system"]
+            if "extra" in m:
+                zi.extra = s2b(m["extra"])
+            if "comment" in m:
+                zi.comment = s2b(m["comment"])
+            if "internal_attr" in m:
+                zi.internal_attr = m["internal_attr"]
+            if "versions" in m:
+                zi.create_version, zi.extract_version = m["versions"]
             import warnings
             with warnings.catch_warnings():
                 warnings.simplefilter("ignore")
@@ -68,14 +84,22 @@ def write_zip_raw(path, members, s2b, opts):
         else:
             attr, data = (stat.S_IFREG | m.get("mode", 0o644)) << 16, s2b(m.get("data", ""))
         deflate = bool(m.get("deflate")) and not opts.get("store_all") and kind == "file"
-        if deflate:
+        meth = m.get("method") if kind == "file" and not opts.get("store_all") else None
+        if meth == "bzip2":
+            import bz2
+            payload, method = bz2.compress(data), 12
+        elif meth == "stored":
+            payload, method = data, 0
+        elif deflate or meth in ("deflate", "lzma"):
             c = zlib.compressobj(6, zlib.DEFLATED, -15)
             payload = c.compress(data) + c.flush()
             method = 8
         else:
             payload, method = data, 0
         crc = zlib.crc32(data) & 0xFFFFFFFF
-        flags = 0x800 if m.get("utf8flag") else 0
+        flags = (0x800 if m.get("utf8flag") else 0) | (m.get("flags", 0) if method == 8 else 0)
+        if "attr" in m and kind == "file":
+            attr = m["attr"]
         descr = bool(opts.get("descriptor")) and kind == "file"
         if descr:
             flags |= 0x08
@@ -83,15 +107,24 @@ def write_zip_raw(path, members, s2b, opts):
         ux = struct.pack("<HHBBIBI", 0x7875, 11, 1, 4, 1000, 4, 1000)
         lextra = struct.pack("<HHBII", 0x5455, 9, 3, t, t) + ux
         cextra = struct.pack("<HHBI", 0x5455, 5, 3, t) + ux
-        dostime, dosdate = (5 << 11) | (6 << 5) | 4, ((2021 - 1980) << 9) | (3 << 5) | 4
+        if "extra" in m:
+            lextra, cextra = s2b(m["extra"]), s2b(m["extra"])
+        dt = m.get("date", (2021, 3, 4, 5, 6, 8))
+        dostime, dosdate = (dt[3] << 11) | (dt[4] << 5) | (dt[5] // 2), ((dt[0] - 1980) << 9) | (dt[1] << 5) | dt[2]
+        mcomment = s2b(m.get("comment", ""))
+        made_by = (m.get("create_system", 3) << 8) | (m.get("versions", [0x1E, 20])[0] & 0xFF)
+        need = m.get("versions", [0x1E, 20])[1]
+        if method == 12:
+            need = max(need, 46)
         offset = len(out)
         lcrc, lcs, lus = (0, 0, 0) if descr else (crc, len(payload), len(data))
-        out += struct.pack("<4sHHHHHIIIHH", b"PK\x03\x04", 20, flags, method, dostime, dosdate, lcrc, lcs, lus,
+        out += struct.pack("<4sHHHHHIIIHH", b"PK\x03\x04", need, flags, method, dostime, dosdate, lcrc, lcs, lus,
                            len(raw), len(lextra)) + raw + lextra + payload
         if descr:
             out += struct.pack("<4sIII", b"PK\x07\x08", crc, len(payload), len(data))
-        central += struct.pack("<4sHHHHHHIIIHHHHHII", b"PK\x01\x02", 0x031E, 20, flags, method, dostime, dosdate, crc,
-                               len(payload), len(data), len(raw), len(cextra), 0, 0, 0, attr, offset) + raw + cextra
+        central += struct.pack("<4sHHHHHHIIIHHHHHII", b"PK\x01\x02", made_by, need, flags, method, dostime, dosdate, crc,
+                               len(payload), len(data), len(raw), len(cextra), len(mcomment), 0, m.get("internal_attr", 0),
+                               attr, offset) + raw + cextra + mcomment
         n += 1
     cdoff = len(out)
     comment = b"archive comment, " * 3 if opts.get("comment") else b""
@@ -246,6 +279,10 @@ def register(OPS, drv):
                     return ["file", drv.b2s(f.read()), st[6]]
         except (OSError, IOError, KeyError) as e:
             return ["exc", type(e).__name__]
+        except Exception as e:
+            if op == "obs":         # an observation never takes the other paths of its sequence down
+                return ["exc", type(e).__name__]
+            raise
         raise ValueError(op)
 
     def handler_chain(sel, config):
